@@ -286,6 +286,9 @@ impl Command for SetPalette {
     }
 
     fn run(&self, _buf: &mut Buffer, _caret: &mut Caret, bgi: &mut Bgi) -> EngineResult<CallbackAction> {
+        if self.palette.iter().any(|c| !(0..64).contains(c)) {
+            return Err(anyhow::Error::msg("Invalid palette color"));
+        }
         bgi.set_palette(&self.palette);
         Ok(CallbackAction::Update)
     }
